@@ -377,6 +377,21 @@ func TestMuxRoute(t *testing.T) {
 				}
 			}
 			logEv("Drain", map[string]any{"rx": readAll()})
+			if conc && !muxClosed && s.at("d") == "d_read" {
+				// everything that was started has finished: from here on "the connection that most recently wrote to the source"
+				// has a definite answer again. One plain datagram per source key, the dispatcher stepped through its gates.
+				for _, x := range job.Keys {
+					if s.at("d") != "d_read" {
+						break
+					}
+					sock.in <- dgram{payload("data"), mrAddr(x)}
+					s.step("d")
+					logEv("DRead", map[string]any{"x": x, "kd": "data"})
+					for round := 0; round < 8 && s.at("d") != "d_read" && gated("d"); round++ {
+					}
+					logEv("ProbeOp", map[string]any{"x": x, "kd": "data", "rx": readAll()})
+				}
+			}
 			// leave
 			ice.VerifUDPMuxSetYield(nil)
 			for _, h := range handles {
